@@ -163,6 +163,25 @@ W14 = {
 for _k, _v in W14.items():
     CHECKS[_k]['text'] += ' ' + _v
 
+# wave 15: less-visited entry points and keyword options
+W15 = {
+ 'C05': 'Well-formed messages whose name-carrying fields hold long hostile names go through the bus, each first in a child process that is abandoned after 30 s.',
+ 'C07': 'Every fifth busy-keyring case has the keyring directory as a symbolic link to a protected directory.',
+ 'C09': 'A call made with expectReply=False and a timeout is part of the loss alphabet.',
+ 'C10': 'An application object exported through a registered IDBusObject adapter is among the lifecycle cases.',
+ 'C12': 'Every proxy case once more with another definition known under the same interface name.',
+ 'C13': 'The client-API search passes the requestBusName options by position in every second request.',
+ 'C14': 'The Bus object\'s own broadcastSignal / sendSignal with every combination of the path / interface keywords against four rules.',
+ 'C15': 'For objects with several interfaces, calls naming no interface go through a proxy built from the XML and one built from the declarations: same decision, same call.',
+ 'C16': 'Two interfaces sharing property names with different access, both declaration orders.',
+ 'C17': 'One exploration with other definitions known under the same three interface names.',
+ 'C18': 'Five more constructor slots with the other optional keywords (sender, body, flags) given.',
+ 'C19': 'Method(name, sig) / Method(name, returns=sig) / added later / Method(name) / Signal(name) counted for every signature.',
+ 'C20': 'Every sender sequence once more with the first, the last and all calls made with expectReply=False.',
+}
+for _k, _v in W15.items():
+    CHECKS[_k]['text'] += ' ' + _v
+
 REASON_TODO = 'check not built yet in this snapshot (planned in DESIGN.md section 3); nothing is claimed for it'
 
 def main():
